@@ -483,8 +483,20 @@ namespace sim
       length = r.real(40e3, 400e3);
       const double t1 = r.real(20e3, 150e3), t2 = r.chance(0.5) ? t1 : r.real(20e3, 150e3);
       thick_max = std::max(t1, t2);
-      const double a1 = prev_angle > 0 ? prev_angle : (fault ? r.real(20, 160) : r.real(5, 85));
-      const double a2 = r.chance(0.4) ? a1 : (fault ? r.real(20, 160) : r.real(5, 88));
+      // dips anywhere in (0,180): mostly ordinary slabs, sometimes steep or overturned ones
+      auto dip = [&]() -> double
+      {
+        if (fault)
+          return r.real(15, 165);
+        const double s = r.real();
+        if (s < 0.7)
+          return r.real(5, 85);
+        if (s < 0.85)
+          return r.real(80, 100);
+        return r.real(95, 175);
+      };
+      const double a1 = prev_angle > 0 ? prev_angle : dip();
+      const double a2 = r.chance(0.4) ? a1 : dip();
       angles = {{a1, a2}};
       kv.push_back({"length", num(length)});
       kv.push_back({"thickness", r.chance(0.5) && t1 == t2 ? nums({t1}) : nums({t1, t2})});
